@@ -4,6 +4,7 @@ Counting cuckoo: the C03 harnesses with counts (see c03.py: labels cc-*)."""
 from .. import env
 
 PROPERTY = "C08"
+CROSS_CHECK = True      # thorough: dumped assertion queries are re-decided by z3 4.8.12 and cvc5 1.0
 LEVEL = "model_checking"
 STUBS = ["array -> SymArray('I')", "hash_function -> dictionary", "random -> SymRandom (counting cuckoo)"]
 ASSUMPTIONS = [
